@@ -177,6 +177,18 @@ class unary_operation:
         return S.unary_spec(self, op_func)
 
 
+def _make_unary_variant(opname):
+    class spec(unary_operation):
+        __doc__ = f'C05 (unary, concrete operator `operator.{opname}`): branches that depend on which operator is applied are explored.'
+        params = dict(unary_operation.params, op_func='op:' + opname)
+    spec.__name__ = 'unary_operation_' + opname
+    contract('serif.vector.Vector._unary_operation', props=['C05', 'C03'], variant='op-' + opname)(spec)
+
+
+for _op in ('neg', 'pos', 'abs'):
+    _make_unary_variant(_op)
+
+
 def _make_unary(dunder, opfn):
     class spec:
         params = {'self': 'vector'}
